@@ -877,6 +877,9 @@ class Ctx:
         last = segs[-1]
         if len(segs) >= 2:
             ty = segs[-2]
+            if ty == 'ErrorKind':
+                import zlib
+                return EnumV(zlib.crc32(last.encode()) & 0xffff, {}, 'ErrorKind')
             if ty == 'Ordering' and last in ('Less', 'Equal', 'Greater'):
                 return EnumV({'Less': -1, 'Equal': 0, 'Greater': 1}[last], {}, 'Ordering')
             i = src.variant_index(ty, last)
